@@ -134,6 +134,12 @@ func (x *Exec) Verify() {
 			cfg.st.assume(t)
 		}
 		x.assumeGlobalAxioms(cfg.st)
+		if x.c.Options["sweep"] == "true" {
+			// an API entry point is called with no lock held
+			m := Term{"m!sw", SInt}
+			held := x.heldArr(cfg.st)
+			cfg.st.assume(Forall([]Term{m}, Not(Select(held, m)), []Term{Select(held, m)}))
+		}
 	}()
 	if x.abstract {
 		return
@@ -288,6 +294,9 @@ func (x *Exec) gotoBlock(cfg *Config, f *Frame, to *ssa.BasicBlock) bool {
 	} else {
 		if li := x.loopsOf(f.fn); li != nil {
 			if _, isHeader := li.headers[to]; isHeader {
+				if x.c != nil && x.c.Options["sweep"] == "true" {
+					return x.sweepLoopHeader(cfg, f, from, to, li)
+				}
 				unsupported("loop in inlined function %s (needs a contract)", fullKey(f.fn))
 			}
 		}
@@ -295,6 +304,41 @@ func (x *Exec) gotoBlock(cfg *Config, f *Frame, to *ssa.BasicBlock) bool {
 	f.prev = from
 	f.block = to
 	f.idx = 0
+	return true
+}
+
+// sweepLoopHeader: in the zero-annotation sweep, loops of inlined callees are
+// abstracted with the invariant true: on entry everything except the lock
+// state is forgotten and one iteration is explored; a back edge ends the path.
+// (Lock discipline inside the loop body is still checked on that iteration;
+// loops are assumed to be lock-balanced.)
+func (x *Exec) sweepLoopHeader(cfg *Config, f *Frame, from, to *ssa.BasicBlock, li *loopInfo) bool {
+	if li.body[to][from] {
+		return false // back edge
+	}
+	st := cfg.st
+	for _, name := range sortedKeys(st.heap) {
+		if strings.HasPrefix(name, "$held") || strings.HasPrefix(name, "$rheld") || name == "$top" {
+			continue
+		}
+		st.heap[name] = x.d.Fresh("SW!"+name, st.heap[name].Sort)
+	}
+	ntop := x.d.Fresh("top", SInt)
+	st.assume(Ge(ntop, x.top(st)))
+	st.heap["$top"] = ntop
+	n := 0
+	for _, in := range to.Instrs {
+		p, ok := in.(*ssa.Phi)
+		if !ok {
+			break
+		}
+		f.regs[p] = x.symbolicOf(st, x.d.FreshName("SW!"+sanitize(p.Comment)), p.Type())
+		n++
+	}
+	x.note("sweep: loop in %s abstracted (invariant true)", fullKey(f.fn))
+	f.prev = from
+	f.block = to
+	f.idx = n
 	return true
 }
 
@@ -502,7 +546,11 @@ func (x *Exec) step(cfg *Config, f *Frame, in ssa.Instruction) (forks []*Config,
 		}
 		f.regs[i] = sv.F[i.Field]
 	case *ssa.UnOp:
-		f.regs[i] = x.unop(cfg, f, i)
+		v := x.unop(cfg, f, i)
+		if _, aborted := v.(abortedVal); aborted {
+			return nil, false // the watcher frame was popped
+		}
+		f.regs[i] = v
 	case *ssa.BinOp:
 		f.regs[i] = x.binop(cfg, i, x.get(f, i.X), x.get(f, i.Y))
 	case *ssa.Store:
@@ -617,6 +665,7 @@ func (x *Exec) step(cfg *Config, f *Frame, in ssa.Instruction) (forks []*Config,
 		f.regs[i] = x.lookup(cfg, f, i)
 	case *ssa.MakeChan:
 		r := x.alloc(st, "chan")
+		st.heap["$closed"] = Store(x.heapGet(st, "$closed", SArr(SInt, SBool)), r, False)
 		f.regs[i] = TV{T: r}
 	case *ssa.Select:
 		return x.selectOp(cfg, f, i)
